@@ -5,19 +5,25 @@ import (
 	"context"
 	"crypto/x509"
 	"encoding/base64"
+	"encoding/hex"
 	"encoding/json"
 	"encoding/pem"
 	"fmt"
 	"io"
+	"math/big"
 	"net"
 	"net/url"
 	"os"
 	"path/filepath"
 	"reflect"
 	"regexp"
+	"strings"
 	"time"
 
 	"github.com/golang/snappy"
+
+	"verifharness/codeclib"
+	"verifharness/hlib"
 
 	"github.com/oasisprotocol/oasis-core/go/common"
 	"github.com/oasisprotocol/oasis-core/go/common/cbor"
@@ -32,6 +38,7 @@ import (
 	"github.com/oasisprotocol/oasis-core/go/common/sgx/pcs"
 	"github.com/oasisprotocol/oasis-core/go/common/version"
 	"github.com/oasisprotocol/oasis-core/go/consensus/api/transaction"
+	governance "github.com/oasisprotocol/oasis-core/go/governance/api"
 	registry "github.com/oasisprotocol/oasis-core/go/registry/api"
 	roothash "github.com/oasisprotocol/oasis-core/go/roothash/api"
 	"github.com/oasisprotocol/oasis-core/go/roothash/api/commitment"
@@ -59,6 +66,19 @@ type target struct {
 	// reframe, when set, turns mutated inner bytes into the bytes handed to run
 	// (re-signing, re-compressing), so that mutations reach the code behind an integrity check.
 	reframe func(inner []byte) []byte
+	// fields, when set, locates the length / type fields of a (seed) encoding at every nesting
+	// level: they are swept over the boundary values deterministically (every run) and used by the
+	// random "lenfield" operator.
+	fields func(b []byte) []codeclib.LenField
+	// words: also sweep every 2-byte-aligned 16/32-bit word as a potential length field (budgeted).
+	words bool
+	// text: the case payload is ASCII text (a structured case description, `:`-prefixed on the
+	// case line) produced by gen / sweep instead of mutated bytes.
+	text  bool
+	gen   func(r *hlib.Rng) ([]byte, string)
+	sweep func() [][]byte
+	// live targets run goroutines of the code under test; failures are not byte-shrunk.
+	live bool
 }
 
 var (
@@ -259,7 +279,9 @@ func remarshal(v any) {
 }
 
 func buildTargets() []*target {
-	signature.SetChainContext("verif c16 exploration chain context")
+	// (The chain context is the live multiplexer's genesis document hash: set by newLiveMux below,
+	// before anything is signed.)
+	lmEarly := newLiveMux()
 	// The repository's attestation test vectors come from debug enclaves (as in its own tests).
 	// (IAS only, switched on per target; the PCS vectors are production enclaves.)
 	w := newWorld()
@@ -531,7 +553,7 @@ func buildTargets() []*target {
 	}
 	add(&target{name: "quote", boundary: "attestation quotes (PCS / DCAP, SGX and TDX)",
 		path:  "pcs.Quote.UnmarshalBinary / UnmarshalBinaryWithTrailing -> Quote.Verify(policy, ts, TCB bundle)",
-		seeds: quoteSeeds,
+		seeds: quoteSeeds, fields: codeclib.QuoteLenFields, words: true,
 		run: func(data []byte) string {
 			var q pcs.Quote
 			if err := q.UnmarshalBinary(data); err != nil {
@@ -564,6 +586,33 @@ func buildTargets() []*target {
 				return rej(err, "rejected:decode")
 			}
 			remarshal(&b)
+			pol := &pcs.QuotePolicy{TCBValidityPeriod: 36500, TDX: &pcs.TdxQuotePolicy{}}
+			_, err := b.Verify(pol, quoteTime)
+			if err != nil {
+				_, err = b.Verify(pol, tdxTime)
+			}
+			if err != nil {
+				return rej(err, "rejected:verify")
+			}
+			return "verified"
+		}})
+	// The quote as it arrives inside a node registration: wrapped in the CBOR bundle (the mutant
+	// quote is re-wrapped with the matching collateral), verified through QuoteBundle.Verify.
+	add(&target{name: "quote-in-bundle", boundary: "attestation quotes inside the CBOR quote bundle of a node's TEE capability",
+		path:  "mutated quote bytes, wrapped: cbor.Unmarshal(pcs.QuoteBundle) -> QuoteBundle.Verify -> Quote.UnmarshalBinary -> QuoteSignatureECDSA_P256 / CertificationData_QEReport.UnmarshalBinary -> Verify",
+		seeds: quoteSeeds, fields: codeclib.QuoteLenFields,
+		reframe: func(inner []byte) []byte {
+			tcb := tcbBundle
+			if len(inner) > 8 && inner[0] == 4 && inner[4] == 0x81 {
+				tcb = tdxBundle
+			}
+			return cbor.Marshal(pcs.QuoteBundle{Quote: inner, TCB: tcb})
+		},
+		run: func(data []byte) string {
+			var b pcs.QuoteBundle
+			if err := cbor.Unmarshal(data, &b); err != nil {
+				return rej(err, "rejected:decode")
+			}
 			pol := &pcs.QuotePolicy{TCBValidityPeriod: 36500, TDX: &pcs.TdxQuotePolicy{}}
 			_, err := b.Verify(pol, quoteTime)
 			if err != nil {
@@ -909,7 +958,7 @@ func buildTargets() []*target {
 	}
 	add(&target{name: "rhp-frame", boundary: "runtime host protocol frames", cbor: false,
 		path:  "cbor.MessageCodec.Read (4-byte length, maxMessageSize, decModeRPC) into protocol.Message -> Body.Type() -> %+v",
-		seeds: frames,
+		seeds: frames, fields: codeclib.FrameLenFields, words: true,
 		run: func(data []byte) string {
 			codec := cbor.NewMessageCodec(&rw{r: bytes.NewReader(data)}, "verif")
 			var m protocol.Message
@@ -945,8 +994,77 @@ func buildTargets() []*target {
 			remarshal(&m)
 			return "decoded"
 		}})
+
+	// ---------------------------------------------------------------- runtime host protocol: live connection
+	streams := liveSeeds(w)
+	add(&target{name: "rhp-live-host", boundary: "runtime host protocol frames (live connection, node side: after InitHost, one host call outstanding)", live: true,
+		path:  "net.Pipe -> protocol.Connection (workerIncoming: codec.Read -> handleMessage goroutines; workerOutgoing) -> follow-up request -> Close()",
+		seeds: streams, fields: codeclib.FrameLenFields,
+		run:   func(data []byte) string { return runLive(true, data) }})
+	add(&target{name: "rhp-live-guest", boundary: "runtime host protocol frames (live connection after InitGuest)", live: true,
+		path:  "net.Pipe -> protocol.Connection (workerIncoming: codec.Read -> handleMessage goroutines; workerOutgoing) -> follow-up request -> Close()",
+		seeds: streams, fields: codeclib.FrameLenFields,
+		run:   func(data []byte) string { return runLive(false, data) }})
+
+	// ---------------------------------------------------------------- CheckTx / DeliverTx of a live multiplexer
+	lm := lmEarly
+	add(&target{name: "mux-tx", boundary: "consensus transaction bytes at mempool check and delivery (live multiplexer, correctly signed, boundary-valued envelope fields)",
+		path: "abciMux.CheckTx / BeginBlock+DeliverTx -> executeTx -> decodeTx -> processTx -> staking AuthenticateTx (nonce, balance, fee, gas price) -> gas -> app.ExecuteTx",
+		text: true, live: true, seeds: [][]byte{[]byte("s=1,n=0,fee=2000/1000,m=" + hexText(string(staking.MethodTransfer)) + ",b=valid,x=check")},
+		gen:  lm.gen, sweep: lm.sweep, run: lm.runStructured})
+	// Raw bytes at the same observation point: valid signed transactions (right nonce, funded
+	// signer) under the byte- and CBOR-level mutations, and mutated transaction bodies re-signed.
+	var muxSigned, muxInner [][]byte
+	for i, meth := range []string{string(staking.MethodTransfer), string(staking.MethodAddEscrow), string(staking.MethodBurn), string(registry.MethodRegisterEntity), string(governance.MethodCastVote)} {
+		c := &muxCase{signer: i % 3, fee: true, amount: big.NewInt(6000), gas: 2000, method: meth, body: "valid"}
+		if meth == string(registry.MethodRegisterEntity) {
+			c.signer = muxEntity
+		}
+		raw := lm.build(c)
+		muxSigned = append(muxSigned, raw)
+		var st transaction.SignedTransaction
+		if err := cbor.Unmarshal(raw, &st); err != nil {
+			panic(err)
+		}
+		muxInner = append(muxInner, st.Blob)
+	}
+	muxRaw := func(data []byte) string {
+		mode := "check"
+		if len(data)%3 == 0 {
+			mode = "deliver"
+		}
+		class := lm.exec(data, mode)
+		// Bounded memory: bytes above the MaxTxSize consensus parameter are refused by their size,
+		// before anything is decoded (so garbage and well-formed oversized bytes get the same answer).
+		if len(data) > muxMaxTxSize && class != "rejected:consensus/2" && !strings.HasPrefix(class, "rejected:proposal") && specFail == nil {
+			specFail = &specFailure{"mux-oversized-not-refused-by-size", fmt.Sprintf("%d transaction bytes (MaxTxSize %d) in mode %s were answered %q instead of consensus.ErrOversizedTx: the bytes were decoded before the size limit was applied",
+				len(data), muxMaxTxSize, mode, class)}
+		}
+		return class
+	}
+	// Oversized seeds: garbage, and a well-formed signed transaction with a large body.
+	bigTx := lm.build(&muxCase{signer: 0, fee: true, amount: big.NewInt(6000), gas: 2000, method: string(staking.MethodTransfer),
+		body: hex.EncodeToString(bytes.Repeat([]byte{0x61}, 40000))})
+	muxSigned = append(muxSigned, bytes.Repeat([]byte{0xff}, muxMaxTxSize+1), bytes.Repeat([]byte{0x9f}, muxMaxTxSize+1), bigTx)
+	add(&target{name: "mux-raw", boundary: "consensus transaction bytes at mempool check and delivery (live multiplexer, mutated signed transactions)", cbor: true, live: true,
+		path:  "abciMux.CheckTx / BeginBlock+DeliverTx -> executeTx -> decodeTx (size limit, envelope, signature, sanity) -> processTx",
+		seeds: muxSigned, run: muxRaw,
+		sweep: func() [][]byte {
+			// sizes around the limit, garbage and well-formed, in both modes (the mode follows the length)
+			out := [][]byte{bigTx, append(append([]byte(nil), bigTx...), 0), append(append([]byte(nil), bigTx...), 0, 0)}
+			for _, n := range []int{muxMaxTxSize - 1, muxMaxTxSize, muxMaxTxSize + 1, muxMaxTxSize + 2, muxMaxTxSize + 3, 2 * muxMaxTxSize, 1 << 20} {
+				out = append(out, bytes.Repeat([]byte{0xff}, n), bytes.Repeat([]byte{0x81}, n))
+			}
+			return out
+		}})
+	add(&target{name: "mux-resigned", boundary: "consensus transaction bytes at mempool check and delivery (live multiplexer, mutated transaction re-signed by a funded account)", cbor: true, live: true,
+		path:  "mutated Transaction CBOR, signed -> abciMux.CheckTx / BeginBlock+DeliverTx -> executeTx -> processTx -> AuthenticateTx -> app.ExecuteTx",
+		seeds: muxInner, run: muxRaw,
+		reframe: func(inner []byte) []byte { return singleSign(lm.signers[0], transactionSigCtx(), inner) }})
 	return ts
 }
+
+func hexText(s string) string { return hex.EncodeToString([]byte(s)) }
 
 type rw struct{ r io.Reader }
 
